@@ -62,11 +62,20 @@ pub struct Rec {
     pub decoded: bool,
 }
 
+thread_local! {
+    /// One current-thread tokio runtime per worker, with the time driver: the step-wise polling below runs inside
+    /// its context, so a dedup task that uses tokio timers correctly does not fail for want of a reactor (its timers
+    /// simply never fire there: no wall-clock time passes between two polls); the timed runs drive it for real.
+    static RT: tokio::runtime::Runtime = tokio::runtime::Builder::new_current_thread().enable_time().build().expect("tokio runtime");
+}
+
 /// Run one history through the real task. Reception i carries id i in
 /// metadata.nanoseconds. Returns the records in emission order, each with the
 /// index of the arrival after which it came out (n = after end of input).
 pub fn run_real(al: &Alphabet, hist: &[Arr], w: u32, var: Variant) -> Result<Vec<Rec>, String> {
     guarded(|| {
+        let handle = RT.with(|rt| rt.handle().clone());
+        let _ctx = handle.enter();
         let n = hist.len();
         let (tx_in, rx_in) = tokio::sync::mpsc::channel::<TimedMessage>(n + 1);
         let (tx_out, mut rx_out) = tokio::sync::mpsc::channel::<TimedMessage>(n + 1);
@@ -113,6 +122,69 @@ pub fn run_real(al: &Alphabet, hist: &[Arr], w: u32, var: Variant) -> Result<Vec
             panic!("deduplicate_messages did not finish after its input channel was closed");
         }
         out
+    })
+}
+
+fn make_msg(al: &Alphabet, i: usize, a: &Arr, var: Variant) -> TimedMessage {
+    let t = var.base_s as f64 + a.ms as f64 / 1e3;
+    let mut metadata = vec![SensorMetadata { system_timestamp: t, gnss_timestamp: None, nanoseconds: Some(i as u64), rssi: None, serial: a.rx as u64 + 1, name: None }];
+    if var.multi && a.rx == 1 {
+        metadata.push(SensorMetadata { system_timestamp: t, gnss_timestamp: None, nanoseconds: Some(i as u64 + SECOND), rssi: None, serial: 9, name: None });
+    }
+    TimedMessage { timestamp: t, frame: al.frames[a.frame as usize].clone(), message: None, metadata, decode_time: None }
+}
+
+/// The same history, but driven by a real runtime with WALL-CLOCK pauses: after arrival `pause_after` nothing is sent
+/// for `pause_ms` milliseconds of real time (a receiver behind a slow link, a quiet night). Record timestamps are
+/// unchanged, so the property's verdict must not depend on the pause.
+pub fn run_real_timed(al: &Alphabet, hist: &[Arr], w: u32, var: Variant, pause_after: usize, pause_ms: u64) -> Result<Vec<Rec>, String> {
+    guarded(|| {
+        RT.with(|rt| {
+            rt.block_on(async {
+                let n = hist.len();
+                let (tx_in, rx_in) = tokio::sync::mpsc::channel::<TimedMessage>(n + 1);
+                let (tx_out, mut rx_out) = tokio::sync::mpsc::channel::<TimedMessage>(4 * n + 8);
+                let out = std::cell::RefCell::new(Vec::new());
+                let drain = |step: usize, rx_out: &mut tokio::sync::mpsc::Receiver<TimedMessage>| {
+                    while let Ok(m) = rx_out.try_recv() {
+                        out.borrow_mut().push(Rec {
+                            step,
+                            ts_ms: ((m.timestamp * 1e3).round() as u64).wrapping_sub(var.base_s * 1000),
+                            ids: m.metadata.iter().map(|x| x.nanoseconds.unwrap_or(u64::MAX)).collect(),
+                            decoded: m.message.is_some(),
+                            frame: m.frame,
+                        });
+                    }
+                };
+                let task = deduplicate_messages(rx_in, tx_out, w);
+                let driver = async {
+                    for (i, a) in hist.iter().enumerate() {
+                        tx_in.send(make_msg(al, i, a, var)).await.map_err(|_| ()).expect("input channel open");
+                        for _ in 0..4 {
+                            tokio::task::yield_now().await;
+                        }
+                        if i == pause_after {
+                            tokio::time::sleep(std::time::Duration::from_millis(pause_ms)).await;
+                            for _ in 0..4 {
+                                tokio::task::yield_now().await;
+                            }
+                        }
+                        drain(i, &mut rx_out);
+                    }
+                    drop(tx_in);
+                    for _ in 0..8 {
+                        tokio::task::yield_now().await;
+                    }
+                    rx_out
+                };
+                let ((), mut rx_out) = match tokio::time::timeout(std::time::Duration::from_secs(20), futures::future::join(task, driver)).await {
+                    Ok(x) => x,
+                    Err(_) => panic!("deduplicate_messages did not finish within 20 s after its input channel was closed"),
+                };
+                drain(n, &mut rx_out);
+                out.into_inner()
+            })
+        })
     })
 }
 
@@ -241,6 +313,20 @@ pub fn judge(al: &Alphabet, hist: &[Arr], w: u32, var: Variant, out_raw: &[Rec])
         }
     }
     None
+}
+
+fn check_timed(al: &Alphabet, hist: &[Arr], w: u32, var: Variant, pause_after: usize, pause_ms: u64, rep: &Report) {
+    let mut wit = hist_json(hist, w, var);
+    wit["pause_after"] = json!(pause_after);
+    wit["pause_ms"] = json!(pause_ms);
+    match run_real_timed(al, hist, w, var, pause_after, pause_ms) {
+        Err(p) => rep.violation(&format!("timed:panic:{}", panic_class(&p)), format!("deduplicate_messages panicked: {p}"), wit),
+        Ok(out) => {
+            if let Some((class, what)) = judge(al, hist, w, var, &out) {
+                rep.violation(&format!("timed:{class}"), format!("with {pause_ms} ms of wall-clock silence after arrival {pause_after}: {what}"), wit);
+            }
+        }
+    }
 }
 
 fn hist_json(hist: &[Arr], w: u32, var: Variant) -> Value {
@@ -490,6 +576,42 @@ pub fn run(ctx: &Ctx, rep: &Report) {
         rep.part("fan-out: up to 12 groups open at once", c, json!({"histories": fam.len()}));
         bound.push(format!("fan-out: {} histories with 1..=12 distinct frames open at once", fam.len()));
     }
+    // wall-clock silence: every history of two or three arrivals over two frames (the first one is frame 0) with
+    // non-decreasing stamps from {0, 10, 1000, 2000} ms, a real pause of 1.2 s (thorough: also 3.5 s) after the first
+    // or the second arrival. The runs sleep, they do not compute: 64 at a time.
+    {
+        let mut cases: Vec<(Vec<Arr>, usize, u64)> = Vec::new();
+        let stamps = [0u64, 10, 1000, 2000];
+        let pauses: &[u64] = if ctx.thorough() { &[1200, 3500] } else { &[1200] };
+        for f1 in 0..2u8 {
+            for (i1, s1) in stamps.iter().enumerate() {
+                let h2 = vec![Arr { frame: 0, rx: 0, ms: 0 }, Arr { frame: f1, rx: 1, ms: *s1 }];
+                for p in pauses {
+                    cases.push((h2.clone(), 0, *p));
+                }
+                for f2 in 0..2u8 {
+                    for s2 in &stamps[i1..] {
+                        let mut h3 = h2.clone();
+                        h3.push(Arr { frame: f2, rx: 0, ms: *s2 });
+                        for p in pauses {
+                            cases.push((h3.clone(), 0, *p));
+                            cases.push((h3.clone(), 1, *p));
+                        }
+                    }
+                }
+            }
+        }
+        let t0 = std::time::Instant::now();
+        par_items(64, cases.len(), |i| {
+            let (h, pa, pm) = &cases[i];
+            check_timed(&al, h, 450, unix, *pa, *pm, rep);
+        });
+        let c = cases.len() as u64;
+        total += c;
+        nontriv += c;
+        rep.part("wall-clock silence between arrivals (real runtime, real sleeps)", c, json!({"pauses_ms": pauses, "window_ms": 450, "elapsed_s": t0.elapsed().as_secs_f64()}));
+        bound.push(format!("wall-clock pauses: {} histories of 2-3 arrivals x pause position x {:?} ms", cases.len(), pauses));
+    }
     rep.sample(hist_json(&[Arr { frame: 0, rx: 0, ms: 0 }, Arr { frame: 0, rx: 1, ms: 250 }, Arr { frame: 1, rx: 0, ms: 450 }, Arr { frame: 0, rx: 0, ms: 500 }], 450, multi));
     rep.sample(json!({"emitted_for_sample": run_real(&al, &[Arr { frame: 0, rx: 0, ms: 0 }, Arr { frame: 0, rx: 1, ms: 250 }, Arr { frame: 1, rx: 0, ms: 450 }, Arr { frame: 0, rx: 0, ms: 500 }], 450, multi).map(|v| v.iter().map(|r| json!({"after_arrival": r.step, "timestamp_ms": r.ts_ms, "receptions": r.ids})).collect::<Vec<_>>()).unwrap_or_default()}));
     let oc = outcomes.lock().unwrap();
@@ -517,7 +639,11 @@ pub fn replay(w: &Value, rep: &Report) {
     let disagree = AtomicU64::new(0);
     let mut oc = [0u64; 8];
     let var = Variant { base_s: w["base_s"].as_u64().unwrap_or(0), multi: w["multi_metadata"].as_bool().unwrap_or(false) };
-    check_one(&al, &hist, win, var, rep, &agree, &disagree, &mut oc);
+    if let Some(pm) = w.get("pause_ms").and_then(|x| x.as_u64()) {
+        check_timed(&al, &hist, win, var, w["pause_after"].as_u64().unwrap_or(0) as usize, pm, rep);
+    } else {
+        check_one(&al, &hist, win, var, rep, &agree, &disagree, &mut oc);
+    }
     rep.trans(1);
     rep.state(1);
     rep.sample(w.clone());
